@@ -329,7 +329,7 @@ func (w *World) condResultIndex(f *ssa.Function) int {
 func ruleNoFlagDropped(w *World, r *RuleResult) {
 	through := func(c ssa.CallInstruction) bool {
 		n := w.calleeName(c)
-		return n == "(*Context).goError" || n == "(Condition).GoError" || n == "(Condition).negateOverflowFlags"
+		return n == "(*Context).goError" || n == "(Condition).GoError" || n == "(Condition).negateOverflowFlags" || w.isCondTransformer(callee(c))
 	}
 	for _, name := range w.Names {
 		f := w.Funcs[name]
@@ -598,4 +598,68 @@ func ruleDivisionGuards(w *World, r *RuleResult) {
 func mustPassOK(from ssa.Instruction, ev func(ssa.Instruction) bool) bool {
 	ok, _ := mustPassFrom(from, ev, nil)
 	return ok
+}
+
+// isCondTransformer: an unexported package function that takes a Condition and returns a Condition every
+// return of which is computed from that parameter (it adjusts flags, it does not produce them).
+func (w *World) isCondTransformer(g *ssa.Function) bool {
+	if g == nil || !w.inPkg(g) || g.Object() == nil || g.Object().Exported() || len(g.Blocks) == 0 {
+		return false
+	}
+	ri := w.condResultIndex(g)
+	if ri < 0 {
+		return false
+	}
+	var cp *ssa.Parameter
+	for _, p := range g.Params {
+		if typeIs(p.Type(), apdPath, "Condition") && !isPointer(p.Type()) {
+			cp = p
+		}
+	}
+	if cp == nil {
+		return false
+	}
+	for _, b := range g.Blocks {
+		rt, ok := b.Instrs[len(b.Instrs)-1].(*ssa.Return)
+		if !ok {
+			continue
+		}
+		if ri >= len(rt.Results) {
+			return false
+		}
+		// on every path: a φ derives from the parameter only if each of its incoming values does
+		var derives func(x *Expr, depth int) bool
+		derives = func(x *Expr, depth int) bool {
+			if x.V == ssa.Value(cp) {
+				return true
+			}
+			if depth > 12 {
+				return false
+			}
+			if x.Op == "phi" {
+				if len(x.Args) == 0 {
+					return false
+				}
+				for _, a := range x.Args {
+					if a.Op == "cycle" {
+						continue
+					}
+					if !derives(a, depth+1) {
+						return false
+					}
+				}
+				return true
+			}
+			for _, a := range x.Args {
+				if derives(a, depth+1) {
+					return true
+				}
+			}
+			return false
+		}
+		if !derives(w.exprOf(g, rt.Results[ri]), 0) {
+			return false
+		}
+	}
+	return true
 }
